@@ -190,8 +190,7 @@ def judge(ctx, cs, text, label, detail_extra=None):
                     ctx.violation("fields", "field-hint-names-a-type-the-cstruct-object-does-not-provide",
                                   dict(det, struct=path, field=fname, hint=ann[fname]))
                     return False
-                if isinstance(provided, type) and issubclass(base, (types.Structure, types.Enum, types.Flag)) \
-                        and provided is not base:
+                if isinstance(provided, type) and provided is not base:
                     ctx.violation("fields", "field-hint-names-another-type-of-the-same-name",
                                   dict(det, struct=path, field=fname, hint=ann[fname]))
                     return False
